@@ -280,6 +280,7 @@ def execute(inp):
         o = _mk(inp["v"])
         before = repr(o.serialized())
         after = ""
+        outs = []
         for op in ("as_percentage_of", "fit_to_screen", "chain", "observers"):
             try:
                 if op == "as_percentage_of":
@@ -293,9 +294,14 @@ def execute(inp):
                     rb = repr(r.serialized())
                     before += rb
                     after += rb
+                    outs.append("value" if type(r) is type(o) else "raise:WrongType")
                     if hasattr(r, "fit_to_screen"):
                         try:
-                            r.fit_to_screen()
+                            f = r.fit_to_screen()
+                            outs.append("value" if type(f) is type(o) else "raise:WrongType")
+                        except Exception as e:
+                            outs.append("raise:" + type(e).__name__)
+                            raise
                         finally:
                             after = after[:-len(rb)] + repr(r.serialized())
                 elif op == "observers":
@@ -305,9 +311,10 @@ def execute(inp):
                             getattr(o, name)()
                 elif hasattr(o, op):
                     getattr(o, op)()
-            except Exception:
-                pass
-        return {"k": "immut", "before": before, "after": repr(o.serialized()) + after}
+            except Exception as e:
+                if op == "chain" and not outs:
+                    outs.append("raise:" + type(e).__name__)
+        return {"k": "immut", "before": before, "after": repr(o.serialized()) + after, "outs": outs}
     raise ValueError(k)
 
 
@@ -346,5 +353,5 @@ def corrupt(inp, rec):
             return [c]
         return []
     if k == "immut":
-        return [dict(rec, after=rec["after"] + "x")]
+        return [dict(rec, after=rec["after"] + "x")] + ([dict(rec, outs=rec["outs"][:-1] + ["raise:ValueError"])] if rec["outs"] else [])
     return []
